@@ -290,8 +290,8 @@ func c15R2(c *Ctx) {
 				lookupHold := -1
 				for _, e := range p.Events {
 					if e.Kind == "call" {
-						if mu, isMu := mutexOf(e.Recv); isMu && mu == guardTable["BlacklistedJTIs"] {
-							switch e.Name {
+						if mu, op, isMu := lockOp(e); isMu && mu == guardTable["BlacklistedJTIs"] {
+							switch op {
 							case ".Lock":
 								held = "W"
 								holdNo++
